@@ -681,7 +681,7 @@ func supervise(ck *Check, opt map[string]string, seed int64) int {
 		"samples":             m.Samples,
 		"exhaustive":          exhaustive,
 		"distinct_outcomes":   len(m.Outcomes),
-		"outcomes":            topOutcomes(m.Outcomes, 40),
+		"outcomes":            topOutcomes(m.Outcomes, 160),
 		"counters":            m.Counters,
 		"caps_hit":            m.Caps,
 		"notes":               m.Notes,
